@@ -480,14 +480,17 @@ fn derive_func_op_shape(def: &FuncOpDef, symbol_table: &mut BTreeMap<Rc<str>, Sh
             let func_shape = func.derive_shape(symbol_table);
             // target must be a list, tuple or string
             match &target_shape {
-                Shape::List(_) | Shape::Hole(_) => {}
-                Shape::Narrowed(NarrowedShape {
+                Shape::List(_) => {}
+                // Mapping over a tuple or a string produces a tuple or a
+                // string whose contents we don't track, and a target of
+                // unknown shape may be any of the three.
+                Shape::Tuple(_)
+                | Shape::Str(_)
+                | Shape::Hole(_)
+                | Shape::Narrowed(NarrowedShape {
                     types: NarrowingShape::Any,
                     ..
-                }) => {}
-                // Mapping over a tuple or a string produces a tuple or a
-                // string whose contents we don't track.
-                Shape::Tuple(_) | Shape::Str(_) => {
+                }) => {
                     return Shape::Narrowed(NarrowedShape {
                         pos: pos.clone(),
                         types: NarrowingShape::Any,
@@ -528,21 +531,19 @@ fn derive_func_op_shape(def: &FuncOpDef, symbol_table: &mut BTreeMap<Rc<str>, Sh
                     pos: pos.clone(),
                     types: NarrowingShape::Any,
                 }),
-                Shape::Hole(_) => Shape::List(NarrowedShape {
-                    pos: pos.clone(),
-                    types: NarrowingShape::Any,
-                }),
-                Shape::Narrowed(NarrowedShape {
+                // A target of unknown shape may be a list, a tuple or a string.
+                Shape::Hole(_)
+                | Shape::Narrowed(NarrowedShape {
                     types: NarrowingShape::Any,
                     ..
-                }) => Shape::List(NarrowedShape {
+                }) => Shape::Narrowed(NarrowedShape {
                     pos: pos.clone(),
                     types: NarrowingShape::Any,
                 }),
                 _ => Shape::TypeErr(
                     pos.clone(),
                     format!(
-                        "filter target must be a list, got {}",
+                        "filter target must be a list, tuple or string, got {}",
                         target_shape.type_name()
                     ),
                 ),
